@@ -50,6 +50,20 @@ class Gen(Generic[T]):
     pass
 
 
+def _shaped(fn: Any, k: int) -> Any:
+    """The same callback as a plain function, a functools.partial or a callable object."""
+    import functools
+
+    if k % 3 == 1:
+        return functools.partial(fn)
+    if k % 3 == 2:
+        class _Callable:
+            def __call__(self) -> Any:
+                return fn()
+        return _Callable()
+    return fn
+
+
 class _Unrelated:
     """Put into a caller-owned `types` list after a registration (the list is reused)."""
 
@@ -58,7 +72,7 @@ TYPES: list[Any] = [A, B, C, Dd, Gen[int]]
 TNAMES = ["A", "B", "C", "D", "G[int]"]
 VCLS = [A, B, C, Dd]
 NTYPES = len(TYPES)
-VALID_NAMES = ["default", "a", "b"]
+VALID_NAMES = ["default", "a", "b"]  # (plus "x_1" / "A9" through EXTRA_VALID in generated adds)
 INVALID_NAMES = ["", "a.b", "a b", "a:b"]
 LOOKUP_APIS = ["m_nowait", "m_async", "f_nowait", "f_async", "m_list", "f_list", "inj_sync", "inj_async"]
 NEEDS_CURRENT = {"f_nowait", "f_async", "f_list", "inj_sync", "inj_async"}
@@ -962,7 +976,7 @@ class Interp:
         kwargs: dict[str, Any] = {}
         if td == "ok":
             marks = self.td_marks.setdefault(ctx, [])
-            kwargs["teardown_callback"] = lambda: marks.append(serial)
+            kwargs["teardown_callback"] = _shaped(lambda: marks.append(serial), op["vid"])
         elif td == "bad":
             kwargs["teardown_callback"] = 5
         if "desc" in op:
